@@ -46,4 +46,5 @@ let register () =
             | Res.Panic s -> panic s)
          | _ -> "errsdp")
       | _ -> "bad-args");
-  Registry.register "c13x.udpsess" (fun _ -> "alive")
+  Registry.register "c13x.udpsess" (fun _ -> "alive");
+  Registry.register "c13x.pulludp" (fun _ -> "alive")
